@@ -50,7 +50,7 @@ SCENARIOS = ["first_call", "rebuild", "cache_miss", "next_chain", "invalid_metho
 
 
 def plan(tier):
-    n = 84 if tier == "quick" else 1400
+    n = 84 if tier == "quick" else 210
     return {"cases": n, "params": {"stride": 7 if tier == "quick" else 1}, "timeout_s": 1800 if tier == "quick" else 14000,
             "min": {"faults_raised": 5_000, "scn_first_call": 8, "scn_rebuild": 8, "scn_cache_miss": 8, "scn_next_chain": 8,
                     "scn_invalid_method": 8, "scn_hook_raises": 8, "scn_recursion": 8, "invalid_method_positions": 30,
